@@ -101,6 +101,11 @@ fn scenario(cfg: &Cfg) {
         alloc.set_creation(creation);
     }
     let node = if cfg.refs { Some(Arc::new(Node::new("n@h", "cookie"))) } else { None };
+    if let Some(n) = &node {
+        // a listed connection that was never established: every signal sent over it fails
+        let c = edp_client::Connection::new(edp_client::ConnectionConfig::new("n@h", "down@h", "cookie"));
+        n.connections().insert("down@h".to_string(), Arc::new(tokio::sync::Mutex::new(c)));
+    }
     // order in which allocations completed: the interleaving signature
     let order = Arc::new(shuttle::sync::Mutex::new(Vec::<u8>::new()));
     let mut handles = Vec::new();
@@ -124,6 +129,11 @@ fn scenario(cfg: &Cfg) {
                         let to = erltf::types::ExternalPid::new(Atom::new("elsewhere@h"), 1, 0, 1);
                         let res = shuttle::future::block_on(n.monitor(&from, &to));
                         assert!(res.is_err(), "monitor of a process on an unconnected node succeeded");
+                        // the same over a connection that is listed but cannot send, and an unlink (its id
+                        // comes from the same counter as the reference words)
+                        let down = erltf::types::ExternalPid::new(Atom::new("down@h"), 1, 0, 1);
+                        let _ = shuttle::future::block_on(n.unlink(&from, &down));
+                        let _ = shuttle::future::block_on(n.monitor(&from, &down));
                     }
                     let r = n.make_reference();
                     refs.push((r.ids.clone(), r.creation));
